@@ -263,8 +263,22 @@ def run(eng: Engine, ck: Check):
         soft = [x for x in calls_in(m.node) if call_name(x) in ('from_bytes',)]
         c_ = eng.cfg(m)
         first = [n_ for x in unp for n_ in c_.nodes_for(x)]
-        # the unpack dominates every return: no path hands out a value that did not go through it
-        ok = bool(first) and not soft and all(any(u in c_.dominators()[n_] for u in first) for r in walk_local(m.node) if isinstance(r, ast.Return) for n_ in c_.nodes_for(r))
+        posp_, datap_ = [p_ for p_ in m.params if p_ not in ('cls', 'self')][:2]
+
+        def bounds_checked(node) -> bool:
+            """a read that does not raise is fine where the code has itself established that the bytes are there: under `<end> <= len(data)`
+            (and `0 <= pos`: a negative offset makes a slice come up short as well)"""
+            gs_ = [(e2, p2) for e_, pol_, _ in eng.guards_at(m, node) for e2, p2 in split_conj(expand_aliases(m, e_), pol_)]
+            upper = any(p2 and (cmp_atom(e2) or ('',))[0] in ('le', 'lt') and unparse(cmp_atom(e2)[2]) == f'len({datap_})' and mentions_name(cmp_atom(e2)[1], posp_) for e2, p2 in gs_) or \
+                any(p2 and (cmp_atom(e2) or ('',))[0] in ('ge', 'gt') and unparse(cmp_atom(e2)[1]) == f'len({datap_})' and mentions_name(cmp_atom(e2)[2], posp_) for e2, p2 in gs_)
+            lower = any(p2 and (cmp_atom(e2) or ('',))[0] in ('le', 'lt') and const(cmp_atom(e2)[1]) == 0 and unparse(cmp_atom(e2)[2]) == posp_ for e2, p2 in gs_) or \
+                any(p2 and (cmp_atom(e2) or ('',))[0] in ('ge', 'gt') and const(cmp_atom(e2)[2]) == 0 and unparse(cmp_atom(e2)[1]) == posp_ for e2, p2 in gs_)
+            return upper and lower
+        unchecked_soft = [x for x in soft if not bounds_checked(x)]
+        soft = unchecked_soft
+        # the unpack dominates every return: no path hands out a value that did not go through it (or through a bounds-checked read)
+        ok = bool(first) and not soft and all(any(u in c_.dominators()[n_] for u in first) or bounds_checked(r)
+                                              for r in walk_local(m.node) if isinstance(r, ast.Return) for n_ in c_.nodes_for(r))
         ck.ob('R-C02-PARSER-TOTAL', m, m.node, f'{ci.name}.deserialize raises when fewer bytes are left than it needs (struct unpack_from / unpack): a count or length that '
               'lies about the data ends the parse instead of yielding zeros', ok,
               f'reads with {[unparse(x.func) for x in soft] or "something other than struct unpack"}: past the end of the frame it returns a value, '
